@@ -1,10 +1,318 @@
+(* C06/Props.v — the theorems about the reference model R_shape, stated
+   against the constants the translator extracted from opentype/gtab and
+   opentype/gdef on this run (flag bits, GDEF classes, action budget).
+   "The implementation equals R_shape on in_domain inputs" is decided by the
+   correspondence run, not here. *)
 From Coq Require Import List NArith ZArith Bool Arith Lia.
 From Gen Require Import Consts C06.
-From C06 Require Import Model Proofs.
+From C06 Require Import Model Spec Util Proofs.
 Import ListNotations.
 
+Definition B := gtab_actionBudget.
+
+(* 1. Lookups run in lookup-list order: applying l1 ++ l2 is applying l2 to
+   the result of l1 (all lookup lists, GDEF tables, orders and sequences). *)
 Theorem lookups_in_list_order : forall ll gd l1 l2 seq,
-  R_run ll gd gtab_actionBudget (l1 ++ l2) seq =
-  fold_left (apply_lookup ll gd gtab_actionBudget) l2 (R_run ll gd gtab_actionBudget l1 seq).
-Proof. intros. apply R_run_app. Qed.
+  R_shape ll gd (l1 ++ l2) seq = R_shape ll gd l2 (R_shape ll gd l1 seq).
+Proof. exact R_shape_app. Qed.
 Print Assumptions lookups_in_list_order.
+
+Theorem lookups_in_list_order_run : forall ll gd l1 l2 seq,
+  R_run ll gd B (l1 ++ l2) seq = fold_left (apply_lookup ll gd B) l2 (R_run ll gd B l1 seq).
+Proof. intros. apply R_run_app. Qed.
+
+(* 2. The first matching subtable wins: if no subtable of `pre` applies at the
+   position and `sub` does, the lookup does exactly what `sub` does, whatever
+   follows; and whenever a lookup applies, it is by its first applicable
+   subtable; if none applies nothing happens. *)
+Theorem first_matching_subtable : forall ll gd rec kp a tl s pre sub post r,
+  (forall x, In x pre -> try_sub ll gd B rec kp a tl s x = None) ->
+  try_sub ll gd B rec kp a tl s sub = Some r ->
+  try_subs ll gd B rec kp a tl s (pre ++ sub :: post) = Some r.
+Proof. intros. eapply try_subs_first; eassumption. Qed.
+Print Assumptions first_matching_subtable.
+
+Theorem first_matching_subtable_inv : forall ll gd rec kp a tl s subs r,
+  try_subs ll gd B rec kp a tl s subs = Some r ->
+  exists pre sub post, subs = pre ++ sub :: post /\
+    (forall x, In x pre -> try_sub ll gd B rec kp a tl s x = None) /\
+    try_sub ll gd B rec kp a tl s sub = Some r.
+Proof. intros. eapply try_subs_some_inv; eassumption. Qed.
+
+Theorem no_matching_subtable : forall ll gd f lk p seq,
+  (forall x, In x (lk_subs lk) ->
+     try_sub ll gd (S f) (apply_at ll gd (S f) f) (kp_of gd lk) p 0 (mkSt seq [] 0 true) x = None) ->
+  step ll gd (S f) lk p seq = (seq, S p, true).
+Proof. intros. apply step_no_subtable. assumption. Qed.
+
+(* 3. Left-to-right scan.  With r glyphs still to visit the scan is at
+   position |seq| - r; a step at p either leaves the sequence alone and
+   resumes at p+1 (glyph skipped by the flags, or no subtable applies) or
+   rewrites and resumes at the position the match returns, and in every case
+   strictly fewer glyphs remain: each glyph of the unvisited tail is visited
+   at most once, in increasing order (the remaining-length trace is strictly
+   decreasing), and the fuel |seq| of apply_lookup always suffices. *)
+Theorem left_to_right_scan_unfold : forall ll gd lk f r seq ok,
+  r <> 0 ->
+  scan ll gd B lk (S f) r seq ok =
+  match step ll gd B lk (length seq - r) seq with
+  | (seq', next, ok') => scan ll gd B lk f (length seq' - next) seq' (ok && ok')
+  end.
+Proof.
+  intros ll gd lk f r seq ok Hr. cbn [scan]. apply Nat.eqb_neq in Hr. rewrite Hr. reflexivity.
+Qed.
+
+Theorem left_to_right_scan : forall ll gd lk fuel r seq,
+  r <= length seq ->
+  strictly_decreasing (scan_trace ll gd B lk fuel r seq).
+Proof. intros. apply scan_trace_decreasing. assumption. Qed.
+Print Assumptions left_to_right_scan.
+
+Theorem match_resumes_after : forall ll gd lk r seq seq' next ok,
+  0 < r -> r <= length seq ->
+  step ll gd B lk (length seq - r) seq = (seq', next, ok) ->
+  length seq' - next < r.
+Proof. intros. eapply step_decreases; eassumption. Qed.
+
+Theorem skipped_position_resumes_next : forall ll gd lk p seq,
+  kp_of gd lk (gid_at seq p) = false -> step ll gd B lk p seq = (seq, S p, true).
+Proof. intros. apply step_not_kept. assumption. Qed.
+
+Theorem scan_fuel : forall ll gd lk f1 f2 r seq ok,
+  r <= f1 -> r <= f2 -> r <= length seq ->
+  scan ll gd B lk f1 r seq ok = scan ll gd B lk f2 r seq ok.
+Proof. intros. apply scan_fuel_irrelevant; assumption. Qed.
+
+(* 4. A non-contextual lookup never changes a glyph its flags skip: the
+   skipped glyphs of the input all survive, unchanged and in order. *)
+Theorem skipped_untouched : forall ll gd lk seq ok,
+  forallb is_simple (lk_subs lk) = true ->
+  Subseq (filter (skipped (kp_of gd lk)) seq)
+         (fst (scan ll gd B lk (length seq) (length seq) seq ok)).
+Proof. intros. apply scan_skipped. assumption. Qed.
+Print Assumptions skipped_untouched.
+
+(* 5. Precedence of the flags for mark glyphs: IgnoreMarks > mark filtering
+   set > mark attachment type; base and ligature glyphs depend only on their
+   own bit; other glyphs are always kept; without GDEF nothing is skipped. *)
+Theorem keep_precedence : forall d flags mfs g,
+  class_of (gd_class d) g = c06_GlyphClassMark ->
+  (has_flag flags c06_IgnoreMarks = true -> keep (Some d) flags mfs g = false) /\
+  (has_flag flags c06_IgnoreMarks = false -> has_flag flags c06_UseMarkFilteringSet = true ->
+     keep (Some d) flags mfs g = memN g (nth (N.to_nat mfs) (gd_sets d) [])) /\
+  (has_flag flags c06_IgnoreMarks = false -> has_flag flags c06_UseMarkFilteringSet = false ->
+     keep (Some d) flags mfs g =
+       (N.eqb (attach_type flags) 0 || N.eqb (class_of (gd_attach d) g) (attach_type flags))).
+Proof.
+  intros d flags mfs g Hc. split; [|split]; intros.
+  - apply keep_mark_ignoremarks; assumption.
+  - apply keep_mark_filterset; assumption.
+  - apply keep_mark_attach; assumption.
+Qed.
+Print Assumptions keep_precedence.
+
+Theorem keep_base_ligature_other : forall d flags mfs g,
+  (class_of (gd_class d) g = c06_GlyphClassBase ->
+     keep (Some d) flags mfs g = negb (has_flag flags c06_IgnoreBaseGlyphs)) /\
+  (class_of (gd_class d) g = c06_GlyphClassLigature ->
+     keep (Some d) flags mfs g = negb (has_flag flags c06_IgnoreLigatures)) /\
+  (class_of (gd_class d) g <> c06_GlyphClassBase ->
+   class_of (gd_class d) g <> c06_GlyphClassLigature ->
+   class_of (gd_class d) g <> c06_GlyphClassMark -> keep (Some d) flags mfs g = true) /\
+  keep None flags mfs g = true.
+Proof.
+  intros. split; [|split; [|split]]; intros.
+  - apply keep_base; assumption.
+  - apply keep_ligature; assumption.
+  - apply keep_other; assumption.
+  - reflexivity.
+Qed.
+
+(* 6. Ligature substitution: the first ligature of the set whose components
+   are the next kept glyphs is chosen; the matched glyphs are exactly
+   first :: components (all kept by the flags); they are replaced by ONE glyph
+   at the first position carrying the concatenated text; the glyphs of the
+   span which are not components are exactly the skipped ones and follow the
+   ligature in their order; the rest of the sequence is untouched. *)
+Theorem ligature_consumes : forall gd kp seq a b m g0 ligs ms out s,
+  nth_error seq a = Some g0 -> assoc (gid g0) m = Some ligs ->
+  find_lig kp seq a b (gid g0) ligs = Some (ms, out) -> s_seq s = seq ->
+  let lig := mkG out (flat_map (text_at seq) ms) 0%Z 0%Z 0%Z in
+  simple_effect gd kp seq a b (SLigature m) = Some (EMerge ms lig, true) /\
+  exists comps,
+    In (comps, out) ligs /\
+    map (gid_at seq) ms = gid g0 :: comps /\
+    hd 0 ms = a /\
+    Forall (fun p => kp (gid_at seq p) = true) (tl ms) /\
+    s_seq (fst (apply_effect (EMerge ms lig) s)) =
+      firstn a seq ++ lig :: filter (skipped kp) (slice seq (S a) (S (last_pos ms a)))
+                   ++ skipn (S (last_pos ms a)) seq.
+Proof.
+  intros gd kp seq a b m g0 ligs ms out s Hn Ha Hf Hs lig. split.
+  - eapply ligature_effect; eassumption.
+  - eapply ligature_result; eassumption.
+Qed.
+Print Assumptions ligature_consumes.
+
+(* 7. Positioning adds exactly the value record (GPOS 1.1, 1.2, 2.1, 2.2)
+   resp. the anchor difference minus the intervening advances (GPOS 4.1);
+   glyph id and text are unchanged, no other glyph is touched. *)
+Theorem value_record_adds_exactly : forall v g,
+  gx (add_vr v g) = (gx g + vx v)%Z /\ gy (add_vr v g) = (gy g + vy v)%Z /\
+  gadv (add_vr v g) = (gadv g + va v)%Z /\ gid (add_vr v g) = gid g /\ gtext (add_vr v g) = gtext g.
+Proof. intros. repeat split. Qed.
+
+Theorem gpos_adds_exactly_single : forall gd kp seq a b g0 s,
+  nth_error seq a = Some g0 -> s_seq s = seq ->
+  (forall cov v, memN (gid g0) cov = true ->
+     exists ok, simple_effect gd kp seq a b (SPos1 cov v) = Some (ESet [(a, add_vr v g0)] (S a), ok)) /\
+  (forall m v, assoc (gid g0) m = Some v ->
+     exists ok, simple_effect gd kp seq a b (SPos2 m) = Some (ESet [(a, add_vr v g0)] (S a), ok)) /\
+  (forall g' next,
+     let seq' := s_seq (fst (apply_effect (ESet [(a, g')] next) s)) in
+     nth_error seq' a = Some g' /\ (forall q, q <> a -> nth_error seq' q = nth_error seq q) /\
+     length seq' = length seq).
+Proof.
+  intros gd kp seq a b g0 s Hn Hs. split; [|split].
+  - intros cov v Hc. eexists. apply pos1_effect; assumption.
+  - intros m v Hm. eexists. apply pos2_effect; assumption.
+  - intros g' next. apply eset1_result; [assumption|]. apply nth_error_Some. congruence.
+Qed.
+Print Assumptions gpos_adds_exactly_single.
+
+(* pairs: the second glyph is the next glyph the flags keep inside the window;
+   with a second value record both glyphs are adjusted and the scan resumes
+   behind the second, without one only the first and the scan resumes AT the
+   second glyph *)
+Theorem gpos_adds_exactly_pair : forall gd kp seq a b g0 g1 l' p s,
+  nth_error seq a = Some g0 -> s_seq s = seq ->
+  next_kept kp (slice seq (S a) b) (S a) = Some (g1, l', p) ->
+  (a < p /\ nth_error seq p = Some g1 /\ kp (gid g1) = true /\
+   (forall i h, S a <= i < p -> nth_error seq i = Some h -> kp (gid h) = false)) /\
+  (forall m row v1 v2, assoc (gid g0) m = Some row -> assoc (gid g1) row = Some (v1, Some v2) ->
+     exists ok, simple_effect gd kp seq a b (SPair1 m) =
+                Some (ESet [(a, add_vr v1 g0); (p, add_vr v2 g1)] (S p), ok)) /\
+  (forall m row v1, assoc (gid g0) m = Some row -> assoc (gid g1) row = Some (v1, None) ->
+     exists ok, simple_effect gd kp seq a b (SPair1 m) = Some (ESet [(a, add_vr v1 g0)] p, ok)) /\
+  (forall cov cd1 cd2 m row v1 v2o, memN (gid g0) cov = true ->
+     nth_error m (N.to_nat (class_of cd1 (gid g0))) = Some row ->
+     nth_error row (N.to_nat (class_of cd2 (gid g1))) = Some (v1, v2o) ->
+     exists ok, simple_effect gd kp seq a b (SPair2 cov cd1 cd2 m) =
+       Some (match v2o with
+             | None => ESet [(a, add_vr v1 g0)] p
+             | Some v2 => ESet [(a, add_vr v1 g0); (p, add_vr v2 g1)] (S p)
+             end, ok)) /\
+  (forall g' g'' next,
+     let seq' := s_seq (fst (apply_effect (ESet [(a, g'); (p, g'')] next) s)) in
+     nth_error seq' a = Some g' /\ nth_error seq' p = Some g'' /\
+     (forall q, q <> a -> q <> p -> nth_error seq' q = nth_error seq q) /\
+     length seq' = length seq).
+Proof.
+  intros gd kp seq a b g0 g1 l' p s Hn Hs Hk.
+  pose proof (next_kept_spec _ _ _ _ _ _ Hk) as (Hle & Hnth & Hkp & _ & Hskip).
+  pose proof (pair_second_kept _ _ _ _ _ _ _ Hk) as (Hap & Hp & _).
+  split; [|split; [|split; [|split]]].
+  - repeat split; auto. intros i h Hi Hh.
+    apply (Hskip (i - S a) h); [lia|]. unfold slice.
+    rewrite nth_error_firstn_lt.
+    + rewrite nth_error_skipn_add. replace (S a + (i - S a)) with i by lia. assumption.
+    + apply nth_error_slice in Hnth. lia.
+  - intros. eexists. eapply pair1_effect_both; eassumption.
+  - intros. eexists. eapply pair1_effect_first; eassumption.
+  - intros cov cd1 cd2 m row v1 v2o Hc Hr Hc2.
+    rewrite (pair2_effect gd kp seq a b cov cd1 cd2 m g0 g1 l' p row v1 v2o Hn Hc Hk Hr Hc2).
+    destruct v2o; eexists; reflexivity.
+  - intros g' g'' next. apply eset2_result; try assumption.
+    + apply nth_error_Some. congruence.
+    + apply nth_error_Some. congruence.
+    + lia.
+Qed.
+Print Assumptions gpos_adds_exactly_pair.
+
+(* mark-to-base: the base is the nearest preceding glyph with a base record
+   (d glyphs before the mark); the mark's offset changes by base anchor - mark
+   anchor - advances of the glyphs from the base up to the mark *)
+Theorem gpos_adds_exactly_markbase : forall gd kp seq a b marks (bases : list (N * list anchor)) g0
+    cls mx my (anchors : list anchor) d bx byy,
+  nth_error seq a = Some g0 -> assoc (gid g0) marks = Some (cls, (mx, my)) ->
+  find_base bases (rev (firstn a seq)) 1 = Some (anchors, d) ->
+  nth_error anchors cls = Some (Some (bx, byy)) ->
+  (1 <= d /\
+   (exists g, nth_error (rev (firstn a seq)) (d - 1) = Some g /\ assoc (gid g) bases = Some anchors) /\
+   (forall i h, i < d - 1 -> nth_error (rev (firstn a seq)) i = Some h -> assoc (gid h) bases = None)) /\
+  exists ok,
+  simple_effect gd kp seq a b (SMarkBase marks bases) =
+  Some (ESet [(a, mkG (gid g0) (gtext g0)
+                      (gx g0 + (bx - mx - sum_adv (slice seq (a - d) a)))%Z
+                      (gy g0 + (byy - my))%Z (gadv g0))] (S a), ok).
+Proof.
+  intros. split.
+  - eapply find_base_spec; eassumption.
+  - eapply markbase_effect; eassumption.
+Qed.
+Print Assumptions gpos_adds_exactly_markbase.
+
+(* 8. (P2) Nested actions are resolved against the LIVE input positions.
+   An action (si, li) runs lookup li at the si-th CURRENT input position of the
+   innermost enclosing match, inside that match's window; an index beyond the
+   input sequence, a missing lookup or a glyph the child's flags skip make the
+   action a no-op.  Every edit renumbers the input positions of every
+   enclosing match: an insertion puts all new glyphs into the input sequence
+   at the place of the replaced glyph and shifts the later positions; a merge
+   drops the removed components and shifts the later positions; and the
+   renumbering follows the glyphs. *)
+Theorem nested_positions_live : forall ll gd rec tl' si li acts s,
+  s_ok (count_action B s) = true ->
+  (forall p lk' s' n,
+     nth_error (hd [] (s_frames s)) si = Some p -> nth_error ll li = Some lk' ->
+     kp_of gd lk' (gid_at (s_seq s) p) = true ->
+     rec lk' p tl' (count_action B s) = Some (s', n) ->
+     run_actions ll gd B rec tl' ((si, li) :: acts) s = run_actions ll gd B rec tl' acts s') /\
+  ((nth_error (hd [] (s_frames s)) si = None \/ nth_error ll li = None \/
+    exists p lk', nth_error (hd [] (s_frames s)) si = Some p /\ nth_error ll li = Some lk' /\
+                  kp_of gd lk' (gid_at (s_seq s) p) = false) ->
+   run_actions ll gd B rec tl' ((si, li) :: acts) s =
+   run_actions ll gd B rec tl' acts (count_action B s)).
+Proof.
+  intros ll gd rec tl' si li acts s Hok. split.
+  - intros. eapply run_actions_cons_live; eassumption.
+  - intros. apply run_actions_cons_skip; assumption.
+Qed.
+Print Assumptions nested_positions_live.
+
+Theorem positions_follow_insertion : forall p gs s q,
+  s_frames (fst (apply_effect (EInsert p gs) s)) = map (ins_positions p (length gs)) (s_frames s) /\
+  ins_positions p (length gs) [q] =
+    (if q <? p then [q] else if q =? p then seq p (length gs) else [q + length gs - 1]) /\
+  (p < length (s_seq s) ->
+   let l' := s_seq (fst (apply_effect (EInsert p gs) s)) in
+   (forall q, q < p -> nth_error l' q = nth_error (s_seq s) q) /\
+   (forall j, j < length gs -> nth_error l' (p + j) = nth_error gs j) /\
+   (forall q, p < q -> nth_error l' (q + length gs - 1) = nth_error (s_seq s) q)).
+Proof.
+  intros p gs s q. split; [reflexivity|]. split; [apply ins_positions_single|].
+  intros Hp. cbn [apply_effect fst s_seq]. apply insert_tracks. assumption.
+Qed.
+
+(* full statement (all sequences): for every q > m0 not removed,
+   nth_error l' (q - count_lt rest q) = nth_error l q.  Proved here: the frame
+   equations, removal, the front part for all sequences; the renumbering
+   behind the merge for all sequences of up to 9 glyphs (drop_at and
+   del_positions are independent of glyph contents). *)
+Theorem positions_follow_merge_partial : forall ms lig s q,
+  s_frames (fst (apply_effect (EMerge ms lig) s)) = map (del_positions (tl ms)) (s_frames s) /\
+  (In q (tl ms) -> del_positions (tl ms) [q] = []) /\
+  (~ In q (tl ms) -> del_positions (tl ms) [q] = [q - count_lt (tl ms) q]) /\
+  ((forall r, In r (tl ms) -> q <= r) -> count_lt (tl ms) q = 0) /\
+  (hd 0 ms <= length (s_seq s) ->
+   let l' := s_seq (fst (apply_effect (EMerge ms lig) s)) in
+   (forall q, q < hd 0 ms -> nth_error l' q = nth_error (s_seq s) q) /\
+   nth_error l' (hd 0 ms) = Some lig) /\
+  forallb merge_tracks_check (seq 0 10) = true.
+Proof.
+  intros ms lig s q. split; [reflexivity|].
+  split; [apply del_positions_removed|]. split; [apply del_positions_kept|].
+  split; [apply count_lt_before|]. split; [|apply merge_tracks_upto9].
+  intros H. cbn [apply_effect fst s_seq]. apply merge_tracks_front. assumption.
+Qed.
+Print Assumptions positions_follow_merge_partial.
